@@ -42,6 +42,19 @@ where
     S::Value: Serialize + DeserializeOwned + Clone,
     F: Fn(&S::Value) -> CaseResult + Copy,
 {
+    campaign_fixed(ctx, c, vec![], |_| vec![], strategy, eval)
+}
+
+/// Like `campaign`, with a list of constructed cases (systematic enumerations) that are evaluated
+/// before the generated ones, split over the shards. `smaller` proposes simpler variants of a
+/// failing constructed case (greedy minimisation).
+pub fn campaign_fixed<S, F, G>(ctx: &Ctx, c: Campaign, fixed: Vec<S::Value>, smaller: G, strategy: S, eval: F) -> !
+where
+    S: Strategy,
+    S::Value: Serialize + DeserializeOwned + Clone,
+    F: Fn(&S::Value) -> CaseResult + Copy,
+    G: Fn(&S::Value) -> Vec<S::Value> + Copy,
+{
     let prop = ctx.id.clone();
     if let Some(path) = &ctx.replay {
         let v = vcore::load_replay(path);
@@ -73,6 +86,92 @@ where
         let known = Known::load(&ctx.id);
         let mut report = Report::default();
         let cases = ctx.share(total) as u32;
+        // regression tier: saved cases of fixed defects, replayed by the first shard only
+        if ctx.shard.map(|(k, _)| k == 0).unwrap_or(true) {
+            let mut replayed = 0u64;
+            for (name, v) in vcore::regress_cases(&prop) {
+                let Ok(case) = serde_json::from_value::<S::Value>(v) else {
+                    report.inconclusive.push(format!("harness:regress-case-unreadable:{name}"));
+                    continue;
+                };
+                let r = run_forked(&prop, limits, || eval(&case));
+                replayed += 1;
+                report.stats.evaluations += 1;
+                if let Some(h) = r.harness_error {
+                    report.inconclusive.push(h);
+                } else if let Some((signature, what)) = r.verdict {
+                    if known.matches(&signature) {
+                        *report.stats.excluded_known.entry(signature).or_insert(0) += 1;
+                    } else {
+                        report.failures.push(Failure {
+                            signature,
+                            what: format!("regression case {name}: {what}"),
+                            case: serde_json::to_value(&case).unwrap(),
+                            shrunk_from: None,
+                            shrunk_to: None,
+                        });
+                        return report;
+                    }
+                }
+            }
+            report.stats.extra.insert("regression_cases_replayed".into(), serde_json::json!(replayed));
+        }
+        // constructed cases (systematic enumeration), this shard's share
+        {
+            let (k, n) = ctx.shard.unwrap_or((0, 1));
+            for (i, case) in fixed.iter().enumerate() {
+                if i as u32 % n != k {
+                    continue;
+                }
+                let r = run_forked(&prop, limits, || eval(case));
+                let js = serde_json::to_value(case).unwrap();
+                let key = vcore::hash_json(&js);
+                let mut cl = r.classes.clone();
+                cl.push("constructed_case".to_string());
+                report.stats.case(key, r.nontrivial, &cl);
+                if let Some(h) = r.harness_error {
+                    report.inconclusive.push(h);
+                    continue;
+                }
+                let Some((signature, what)) = r.verdict else { continue };
+                if known.matches(&signature) {
+                    *report.stats.excluded_known.entry(signature).or_insert(0) += 1;
+                    continue;
+                }
+                // greedy minimisation
+                let from = js.to_string().len() as u64;
+                let mut cur = case.clone();
+                let mut cur_sig = (signature, what);
+                let mut budget = shrink;
+                'outer: while budget > 0 {
+                    for cand in smaller(&cur) {
+                        if budget == 0 {
+                            break 'outer;
+                        }
+                        budget -= 1;
+                        let r = run_forked(&prop, limits, || eval(&cand));
+                        if r.harness_error.is_some() {
+                            continue;
+                        }
+                        if let Some((s2, w2)) = r.verdict {
+                            if !known.matches(&s2) {
+                                cur = cand;
+                                cur_sig = (s2, w2);
+                                continue 'outer;
+                            }
+                        }
+                    }
+                    break;
+                }
+                let cj = serde_json::to_value(&cur).unwrap();
+                let to = cj.to_string().len() as u64;
+                report.failures.push(Failure { signature: cur_sig.0, what: cur_sig.1, case: cj, shrunk_from: Some(from), shrunk_to: Some(to) });
+                return report;
+            }
+            if !fixed.is_empty() {
+                report.stats.extra.insert("constructed_cases".into(), serde_json::json!({"total_all_shards": fixed.len()}));
+            }
+        }
         let fail = vcore::pt::run_cases(
             cases,
             ctx.rng_seed("cases"),
